@@ -13,6 +13,7 @@ mod cssout_unit;
 mod pscore_unit;
 mod jslit_unit;
 mod ent_unit;
+mod cssmap_unit;
 
 pub struct Outcome {
     pub found: bool,
@@ -63,6 +64,8 @@ fn main() {
         ("JSLIT", "run") => jslit_unit::run(&input.unwrap()),
         ("ENT", "search") => ent_unit::search(),
         ("ENT", "run") => ent_unit::run(&input.unwrap()),
+        ("CSSMAP", "search") => cssmap_unit::search(),
+        ("CSSMAP", "run") => cssmap_unit::run(&input.unwrap()),
         ("TOTAL", "search") => total_unit::search(),
         ("TOTAL", "run") => total_unit::run(&input.unwrap()),
         _ => {
